@@ -325,12 +325,13 @@ func genChain(o hreg.Opts, p chainPlan, mutants bool) (out seqOut) {
 		} else {
 			ms := c.Mutations(step, perKind)
 			own := map[string]bool{}
-			for _, x := range extraMutants(c, step, rng) {
-				own[x.Label] = true
-				ms = append(ms, x)
+			ownMs := extraMutants(c, step, rng)
+			for i := range ownMs {
+				own[ownMs[i].Label] = true
 			}
 			// second stream: single-byte changes of the block's SSZ encoding that still decode (validity unknown by
-			// construction; S decides). Not part of the per-block sample cut below: always kept.
+			// construction; S decides). This component's own mutants and the byte mutants are not part of the
+			// per-block sample cut below: always kept.
 			bytesMs := c.ByteMutations(step, o.Pick(3, 16), rng.Int63())
 			for i := range bytesMs {
 				own[bytesMs[i].Label] = true
@@ -341,7 +342,7 @@ func genChain(o hreg.Opts, p chainPlan, mutants bool) (out seqOut) {
 				ms = ms[:perBlock]
 				sort.SliceStable(ms, func(a, b int) bool { return ms[a].Label < ms[b].Label })
 			}
-			ms = append(ms, bytesMs...)
+			ms = append(append(ms, ownMs...), bytesMs...)
 			for k := range ms {
 				mu := &ms[k]
 				emitOn(fs, step.PreBlock, mu.Label, mu.Block, engineOf(mu), nil, own[mu.Label])
